@@ -313,7 +313,11 @@ class GroupBy:
         else:  # already a ChunkedArray
             group_key_chunks = group_key_list
 
-        chunk_results = parallel_map(factorize_array, list(zip(group_key_chunks)))
+        def factorize_chunk(chunk):
+            # pd.factorize (unlike the bare factorize_array) also treats NaT as null
+            return pd.factorize(chunk, use_na_sentinel=True)
+
+        chunk_results = parallel_map(factorize_chunk, list(zip(group_key_chunks)))
         codes_list, unique_list = zip(*chunk_results)
 
         if use_monotonic_piece:
